@@ -66,6 +66,31 @@ pub fn fam_name(f: Family) -> &'static str {
     }
 }
 
+pub fn fam_counter(f: Family) -> &'static str {
+    match f {
+        Family::IPV4 => "decoded-nlri:ipv4",
+        Family::IPV6 => "decoded-nlri:ipv6",
+        Family::IPV4_MC => "decoded-nlri:ipv4-mc",
+        Family::IPV6_MC => "decoded-nlri:ipv6-mc",
+        Family::IPV4_MPLS => "decoded-nlri:ipv4-mpls",
+        Family::IPV6_MPLS => "decoded-nlri:ipv6-mpls",
+        Family::LS => "decoded-nlri:ls",
+        Family::IPV4_MUP => "decoded-nlri:ipv4-mup",
+        Family::IPV6_MUP => "decoded-nlri:ipv6-mup",
+        Family::IPV4_VPN => "decoded-nlri:ipv4-vpn",
+        Family::IPV6_VPN => "decoded-nlri:ipv6-vpn",
+        Family::IPV4_FLOWSPEC => "decoded-nlri:ipv4-flowspec",
+        Family::IPV6_FLOWSPEC => "decoded-nlri:ipv6-flowspec",
+        Family::IPV4_FLOWSPEC_VPN => "decoded-nlri:ipv4-flowspec-vpn",
+        Family::IPV6_FLOWSPEC_VPN => "decoded-nlri:ipv6-flowspec-vpn",
+        Family::IPV4_SRPOLICY => "decoded-nlri:ipv4-srpolicy",
+        Family::IPV6_SRPOLICY => "decoded-nlri:ipv6-srpolicy",
+        Family::L2VPN_EVPN => "decoded-nlri:l2vpn-evpn",
+        Family::RTC => "decoded-nlri:rtc",
+        _ => "decoded-nlri:other",
+    }
+}
+
 // ------------------------------------------------------------------ codecs
 
 #[derive(Clone, Debug)]
